@@ -1,0 +1,22 @@
+//go:build verif
+
+package recovery
+
+import "time"
+
+// Verification hooks (build tag `verif` only): count load attempts exactly and expose the back-off
+// delay computation, so that retry behaviour need not be inferred from wall-clock time.
+
+// VerifAttemptObserver, when set, is called once per load attempt inside the retry loop.
+var VerifAttemptObserver func(attempt int)
+
+func verifObserveAttempt(attempt int) {
+	if VerifAttemptObserver != nil {
+		VerifAttemptObserver(attempt)
+	}
+}
+
+// VerifCalculateDelay exposes calculateDelay.
+func (dr *DatabaseRecovery) VerifCalculateDelay(attempt int) time.Duration {
+	return dr.calculateDelay(attempt)
+}
